@@ -165,6 +165,22 @@ def check_spec(spec: NetSpec, label, st: Stats, plan):
                 for sig, msg in balances(spec, val, nxt, P["T"]):
                     problems.append((sig, f"numpy (element-by-element stepping, second step): {msg}", case))
                 st.inc("balances_checked", 1 + spec.n)
+            # whole-number states given as caller arrays of INTEGER dtype
+            for vlabel, val in valgen.vectors(spec, 0):
+                if not finite(val):
+                    continue
+                vi = {k: [float(round(x)) for x in v] for k, v in val.items()}
+                st.inc("executions")
+                case = {"spec": spec.describe(), "config": label, "P": P, "val": {f"{k[0]}.{k[1]}": v for k, v in vi.items()},
+                        "engine": "numpy", "integer": True}
+                try:
+                    nxt = np_step(spec, vi, P, integer=True)[0]
+                except Exception as e:  # noqa: BLE001
+                    problems.append((f"C02/exception/{exc_site(e)}/{type(e).__name__}", f"numpy (integer caller arrays): {exc_text(e)}", case))
+                    break
+                for sig, msg in balances(spec, vi, nxt, P["T"]):
+                    problems.append((sig, f"numpy (integer caller arrays): {msg}", case))
+                st.inc("balances_checked", 1 + spec.n)
             # turn rates given as NumPy arrays (length-1 and 0-d) instead of plain numbers; two steps of the same objects
             if any(len(spec.out_links(n)) > 1 for n in range(spec.n)):
                 for form in ("1d", "0d"):
@@ -266,7 +282,9 @@ def replay(case):
     spec = NetSpec.from_json(case["spec"])
     P = case["P"]
     val = {tuple(k.split(".")): [float(x) for x in v] for k, v in case["val"].items()}
-    if case.get("manual"):
+    if case.get("integer"):
+        nxt = np_step(spec, val, P, integer=True)[0]
+    elif case.get("manual"):
         from ..harness import np_manual_steps
         nxt, _ = np_manual_steps(spec, [valgen.base_vector(spec, 1), val], P)
     elif case.get("array_turnrates"):
